@@ -500,7 +500,7 @@ class ResultsDictOps(common.Suite):
     def cases(self, rng, tier):
         n = 150 if tier == "quick" else 4000
         # directed scripts first: the histories of the two repaired defects and close variants
-        directed = [["m1", "e", "r", "f"], ["e", "s", "m1", "e", "r", "f"], ["s", "f", "m1", "f", "r", "f"],
+        directed = [["m1", "s", "f", "v", "m2", "r", "f"], ["s", "f", "v", "m1", "e", "r", "v", "m2", "r"], ["m1", "e", "r", "f"], ["e", "s", "m1", "e", "r", "f"], ["s", "f", "m1", "f", "r", "f"],
                     ["s", "f", "m1", "f", "e", "r", "f", "m2", "f", "r", "f"], ["m2", "e", "s", "f", "m3", "f", "e", "r", "f"],
                     ["f", "m1", "e", "s", "e", "m0", "f", "r", "f", "f"], ["s", "m1", "f", "r", "f", "m1", "f", "s", "f", "m2", "e", "r", "f"]]
         for ops in directed:
@@ -512,6 +512,8 @@ class ResultsDictOps(common.Suite):
             for _ in range(rng.randint(2, 14)):
                 r = rng.random()
                 ops.append(f"m{rng.randrange(4)}" if r < 0.3 else "e" if r < 0.5 else "f" if r < 0.72 else "s" if r < 0.86 else "r")
+                if rng.random() < 0.12:
+                    ops.append("v")       # validate_simulation(): a new run starts here
             yield {"lazy": i % 2 == 0, "inplace": (i // 2) % 2 == 0, "ops": ops}
 
     def real(self, case):
@@ -565,8 +567,11 @@ class ResultsDictOps(common.Suite):
                     out.append("1" if np.array_equal(f, -2 * atoms.positions) else "0")
                 elif op == "s":
                     mc.save_state()
+                elif op == "v":
+                    mc.validate_simulation()      # a run boundary
                 else:
                     mc.revert_state()
+                    out.append("K" if "forces" in atoms.calc.results else "k")
         return {"reads": "".join(out) or "-", "evals": atoms.calc.nevals}
 
     def model_lines(self, case):
